@@ -119,6 +119,18 @@ func Decode(encdoc EncodedDocument, collectionDefinition client.CollectionDefini
 	if err != nil {
 		return nil, err
 	}
+	// NewDocWithID pre-populates the fields that have a default value. A decoded document holds
+	// what is stored: a field with no stored value is nil, not its default.
+	for _, field := range collectionDefinition.GetFields() {
+		if field.DefaultValue == nil {
+			continue
+		}
+		err = doc.Set(field.Name, nil)
+		if err != nil {
+			return nil, err
+		}
+	}
+
 	properties, err := encdoc.Properties(false)
 	if err != nil {
 		return nil, err
